@@ -36,7 +36,7 @@ import (
 )
 
 type Op struct {
-	Kind  string            `json:"kind"` // load-set load-m export upsert find-write where json xml delete
+	Kind  string            `json:"kind"` // load-set load-m export upsert find-write where json xml delete action
 	Files map[string]string `json:"files,omitempty"`
 	Main  string            `json:"main,omitempty"`
 	Sess  *sess.Op          `json:"sess,omitempty"`
@@ -163,6 +163,28 @@ func runOp(cs *clientState, op *Op) (res string) {
 			return fmt.Sprintf("err=%v walk-error=%v", r.Err, werr)
 		}
 		return fmt.Sprintf("err=%v panic=%v notfound=%v store=%s", r.Err, r.Panic, r.NotFound, w.String())
+	case "action":
+		// an rpc of the shared module, served by a Go method of this client's own store object
+		b := node.NewBrowser(cs.env.Mod, cs.st.Root())
+		sel, err := b.Root().Find(op.Path)
+		if err != nil || sel == nil {
+			return fmt.Sprintf("find rpc: %v", err)
+		}
+		var in node.Node
+		if op.Query != "" {
+			if in, err = nodeutil.ReadJSON(op.Query); err != nil {
+				return "input: " + err.Error()
+			}
+		}
+		out, err := sel.Action(in)
+		if err != nil {
+			return "action error: " + err.Error()
+		}
+		if out == nil {
+			return "action: no output"
+		}
+		js, err := nodeutil.WriteJSON(out)
+		return fmt.Sprintf("err=%v %s", err, js)
 	case "find-write", "where", "json", "xml":
 		b := node.NewBrowser(cs.env.Mod, cs.st.Root())
 		sel := b.Root()
